@@ -2,6 +2,7 @@ import Mathlib.Analysis.SpecialFunctions.Log.Deriv
 import Mathlib.Analysis.SpecialFunctions.ExpDeriv
 import Mathlib.MeasureTheory.Integral.IntervalIntegral.FundThmCalculus
 import CopVerif.Real.Inst
+import CopVerif.Real.BridgeTac
 import CopVerif.Gen.Bivariate
 /-! Frank copula over ℝ (both signs of θ, every statement is for `θ ≠ 0`): spec, bridge to the
     generated definitions, C06 facts (boundary, symmetry, generator, Archimedean identity,
@@ -36,19 +37,19 @@ noncomputable def r (θ z : ℝ) : ℝ := g θ z / g θ 1
 /-! ### bridges: generated definition = spec -/
 
 theorem bridge_g (θ z : ℝ) : Gen.Frank.g θ z = g θ z := by
-  simp [Gen.Frank.g, g]
+  bridge [Gen.Frank.g, g]
 
 theorem bridge_cdfRow (θ u v : ℝ) : Gen.Frank.cdfRow θ u v = C θ u v := by
-  simp [Gen.Frank.cdfRow, C, g]
+  bridge [Gen.Frank.cdfRow, C, g]
 
 theorem bridge_generator (θ t : ℝ) : Gen.Frank.generator θ t = φ θ t := by
-  simp [Gen.Frank.generator, φ]
+  bridge [Gen.Frank.generator, φ]
 
 theorem bridge_hRow (θ u v : ℝ) : Gen.Frank.hRow θ u v = h θ u v := by
-  simp [Gen.Frank.hRow, Gen.Frank.g, h, g]
+  bridge [Gen.Frank.hRow, Gen.Frank.g, h, g]
 
 theorem bridge_pdfRow (θ u v : ℝ) : Gen.Frank.pdfRow θ u v = c θ u v := by
-  simp [Gen.Frank.pdfRow, Gen.Frank.g, c, g]
+  bridge [Gen.Frank.pdfRow, Gen.Frank.g, c, g]
 
 theorem checkFit_ok {θ : ℝ} (hθ : θ ≠ 0) :
     checkFit (Gen.Frank.thetaLower (α := ℝ)) Gen.Frank.thetaUpper Gen.Frank.invalidThetas θ
